@@ -499,7 +499,7 @@ printf("dgssvx: Fact=%4d, Trans=%4d, equed=%c\n",
 	AA = A;
     }
 
-    if ( nofact && equil ) {
+    if ( nofact && equil && lwork != -1 ) { /* a size query leaves A as it is */
 	t0 = SuperLU_timer_();
 	/* Compute row and column scalings to equilibrate the matrix A. */
 	zgsequ(AA, R, C, &rowcnd, &colcnd, &amax, &info1);
